@@ -16,9 +16,11 @@
 (*   Panic cid               Write panicked (never accepted unless the named   *)
 (*        deviation is admitted: ZeroPanicAdmitted, table contains 0, mode 2)  *)
 (*   Hang cid                Write did not return (only the degenerate table   *)
-(*        {0} in paranoid mode, and only if ZeroOnlyHangAdmitted)              *)
+(*        {0} in paranoid mode, and only if ZeroOnlyHangAdmitted; or, kind =   *)
+(*        runaway, it kept padding for ever: never accepted, classified by     *)
+(*        ShortfallCycleAdmitted)                                              *)
 EXTENDS PadBurst, TLC, Json, FiniteSets
-CONSTANTS ZeroPanicAdmitted, ZeroOnlyHangAdmitted, StrictPad
+CONSTANTS ZeroPanicAdmitted, ZeroOnlyHangAdmitted, ShortfallCycleAdmitted, StrictPad
 VARIABLES table, mode, l
 tvars == <<table, mode, l>>
 Trace == ndJsonDeserialize("trace.ndjson")
@@ -75,8 +77,11 @@ TKeep == Is("Keep") /\ l' = l + 1 /\ Trace[l].equal /\ UNCHANGED <<table, mode>>
 TPanic == /\ Is("Panic") /\ l' = l + 1
           /\ ZeroPanicAdmitted /\ mode[Trace[l].cid] = 2 /\ 0 \in table[Trace[l].cid]
           /\ UNCHANGED <<table, mode>>
+\* D2c (repaired): a single valued table {v} whose shortfall recurs: 1469 % v is within a header of v
+ShortfallCycle(T) == \E v \in T : T = {v} /\ v > 0 /\ (Seg + Hdr) % v # 0 /\ v - ((Seg + Hdr) % v) <= Hdr
 THang == /\ Is("Hang") /\ l' = l + 1
-         /\ ZeroOnlyHangAdmitted /\ mode[Trace[l].cid] = 2 /\ table[Trace[l].cid] = {0}
+         /\ \/ ZeroOnlyHangAdmitted /\ mode[Trace[l].cid] = 2 /\ table[Trace[l].cid] = {0}
+            \/ ShortfallCycleAdmitted /\ mode[Trace[l].cid] = 2 /\ ShortfallCycle(table[Trace[l].cid])
          /\ UNCHANGED <<table, mode>>
 TNext == TKeep \/ TReset \/ TPad \/ TConn \/ TWrite \/ TAdopt \/ TPanic \/ THang
 TraceSpec == TInit /\ [][TNext]_tvars
